@@ -114,7 +114,14 @@ impl StopController {
                     let state2 = dfa.transition(state, b);
                     // println!("state: {:?} -{:?}-> {:?}", state, b as char, state2);
                     state = state2;
-                    assert!(!state.is_dead());
+                    if state.is_dead() {
+                        // The text is not valid UTF-8 at this byte (tokens are arbitrary byte
+                        // strings), so no stop sequence can span it: restart matching here.
+                        state = dfa.transition(rx.initial_state, b);
+                        if state.is_dead() {
+                            state = rx.initial_state;
+                        }
+                    }
                     if state.has_lowest_match() {
                         self.is_stopped = true;
                         rx.state = state;
